@@ -43,7 +43,7 @@ TNextTrace == /\ tid <= Len(Tr) /\ l > Len(Tr[tid])
 Diagnose ==
     IF Rec.ev = "raise" THEN Rec.exc
     ELSE IF Rec.ev \in {"lanczos", "arnoldi"} THEN
-        (IF ~Rec.sizes_consistent THEN "returned sizes are mutually inconsistent"
+        (IF ~Rec.sizes_consistent THEN "returned sizes are mutually inconsistent or entries are not finite"
          ELSE IF ~(Rec.ambiguous \/ Rec.k = Kexp) THEN "number of returned Krylov vectors differs from min(m, kdim)"
          ELSE IF ~(Rec.ambiguous \/ (Rec.warned <=> Rec.k < Rec.m)) THEN "warning / early termination mismatch"
          ELSE IF ~Rec.ortho_ok THEN "Krylov vectors not orthonormal"
